@@ -5,6 +5,8 @@ fn main() {
         "C01" => simx::c01::run_check(&args),
         "C02" => simx::c02::run_check(&args),
         "C03" => simx::c03::run_check(&args),
+        "C04" => simx::c04::run_check(&args),
+        "C06" => simx::c06::run_check(&args),
         "C16" => simx::c16::run_check(&args),
         p => vx::machinery(&format!("simx does not serve {p}")),
     };
